@@ -884,6 +884,7 @@ func (p *Parameters) initRings() (err error) {
 func (p *ParametersLiteral) UnmarshalJSON(b []byte) (err error) {
 	var pl struct {
 		LogN         int
+		LogNthRoot   int
 		Q            []uint64
 		P            []uint64
 		LogQ         []int
@@ -901,6 +902,7 @@ func (p *ParametersLiteral) UnmarshalJSON(b []byte) (err error) {
 	}
 
 	p.LogN = pl.LogN
+	p.LogNthRoot = pl.LogNthRoot
 	p.Q, p.P, p.LogQ, p.LogP = pl.Q, pl.P, pl.LogQ, pl.LogP
 	if pl.Xs != nil {
 		p.Xs, err = ring.ParametersFromMap(pl.Xs)
